@@ -316,6 +316,15 @@ func (g *Gen) zWrite(blindOnly bool) Op {
 			// change places with its neighbour although its score stays within the neighbours' range)
 			ns := g.M.zsorted(b)
 			i, j := g.R.Intn(n), g.R.Intn(n)
+			if g.R.Intn(3) == 0 {
+				// ... or by a hair: a new score that agrees with the old one (or with another member's) to nine or
+				// more significant digits is still a different score
+				base := ns[j].S
+				if base == 0 {
+					base = 1
+				}
+				return Op{K: "ZAdd", B: b, Key: []byte(ns[i].K), F: base * (1 + []float64{8e-10, -8e-10, 3e-13, 2e-16 * 2}[g.R.Intn(4)]), Val: []byte("z" + strconv.Itoa(g.ctr))}
+			}
 			return Op{K: "ZAdd", B: b, Key: []byte(ns[i].K), F: ns[j].S, Val: []byte("z" + strconv.Itoa(g.ctr))}
 		}
 		return Op{K: "ZAdd", B: b, Key: g.zKey(), F: zScores[g.R.Intn(len(zScores))], Val: []byte("z" + strconv.Itoa(g.ctr))}
